@@ -27,6 +27,9 @@ Ifs == {If(c, b, <<>>, NoElse) : c \in Conds, b \in Bodies}
 Cases == {Case(X, <<When(<<I(1)>>, b)>>, els) : b \in SmallBodies, els \in {NoElse, Else(<<NText("e")>>)}}
          \cup {Case(X, <<When(<<I(1), S("a")>>, b), When(<<S("a")>>, <<NText("2")>>)>>, Else(<<NText("e")>>)) : b \in SmallBodies}
          \cup {Case(X, <<When(<<Y>>, <<NText("y")>>), When(<<NilE>>, <<NText("n")>>)>>, Else(e)) : e \in SmallBodies}
+         \* a when block that rebinds the subject: later whens compare with the new value
+         \cup {Case(X, <<When(<<I(1)>>, <<NText("one"), Assign("x", P(v))>>), When(<<S("a"), NilE>>, <<NText("two")>>)>>, els) :
+                 v \in {S("a"), I(1), NilE}, els \in {NoElse, Else(<<NText("e")>>)}}
 
 MCPool == Leaves \cup Ifs \cup Cases
 MCPoolAt(i) == MCPool
